@@ -7,6 +7,7 @@ pub mod c06;
 pub mod c10;
 pub mod c09;
 pub mod c13;
+pub mod c08;
 
 pub fn meta(id: &str, tier: &str) -> Option<CheckMeta> {
     match id {
@@ -16,6 +17,7 @@ pub fn meta(id: &str, tier: &str) -> Option<CheckMeta> {
         "C10" => Some(c10::meta(tier)),
         "C09" => Some(c09::meta(tier)),
         "C13" => Some(c13::meta(tier)),
+        "C08" => Some(c08::meta(tier)),
         _ => None,
     }
 }
@@ -42,6 +44,7 @@ pub fn worker(ctx: &Ctx, res: &mut ShardResult) {
         "C10" => c10::worker(ctx, res),
         "C09" => c09::worker(ctx, res),
         "C13" => c13::worker(ctx, res),
+        "C08" => c08::worker(ctx, res),
         _ => panic!("unknown check"),
     }
 }
@@ -58,6 +61,7 @@ pub fn replay(path: &str) -> i32 {
         "C10" => c10::replay(&v["case"]),
         "C09" => c09::replay(&v["case"]),
         "C13" => c13::replay(&v["case"]),
+        "C08" => c08::replay(&v["case"]),
         _ => vec![format!("no replayer for {}", id)],
     };
     let _ = json!(null);
